@@ -29,7 +29,10 @@ def run(text):
 
 def c09_case(rnd, cs, job, acc):
     kinds = [dict(subslot=True, tz=False), dict(core=True, subslot=False), dict(subslot=False, tz=True, aligned=True),
-             dict(subslot=True, tz=False, contention=True, nres=(1, 2)), dict(subslot=False, limits=True, tasklimits=True, tz=False)]
+             dict(subslot=True, tz=False, contention=True, nres=(1, 2)), dict(subslot=False, limits=True, tasklimits=True, tz=False),
+             # alternatives: the choice between primary and alternative must not look at lower-priority demand (seeded change C09-a)
+             dict(subslot=False, tz=False, leaves=False, limits=False, alts=True, nres=(2, 3), ntasks=(3, 7), teams=False, effs=[1.0]),
+             dict(subslot=True, tz=False, alts=True, nres=(2, 4), ntasks=(3, 8))]
     kw = dict(rnd.choice(kinds))
     kw.setdefault("res_choices", (60, 60, 30, 15))
     m = gen.gen(rnd, **kw)
@@ -73,7 +76,7 @@ def c09_case(rnd, cs, job, acc):
     if competes:
         acc.count("nontrivial")
         acc.sig(("C09", m["alap"], m["res"], pos == len(m["tasks"]), pos == 0, "start" in intr, len(days_p & days_i) > 1,
-                 any(r2.get("limits") for r2 in m["resources"]), len(m["resources"])))
+                 any(r2.get("limits") for r2 in m["resources"]), len(m["resources"]), any(t.get("alt") for t in m["tasks"])))
     diff = [k for k in d1 if d1[k] != d2.get(k)]
     rp = dict(property="C09", seed=cs, model=m, text=text1, text2=text2)
     if diff:
